@@ -225,14 +225,9 @@ def confirm(cfg, env):
     return None
 
 
-def _known_f1(r, known):
-    return "F1" in known and "F1" in cr.classify_known(r.get("plan", []), {})
-
-
 def run_numeric(ctx, quick):
     """numeric falsifier of C04; `ctx` is the C04 check's context"""
     rng = ctx.rng
-    known = {f["id"]: f for f in common.known_active(PID)}
     P.harness()
     distinct = set()
 
@@ -322,8 +317,6 @@ def run_numeric(ctx, quick):
             if r["irrational"] and not r["hiprec"]:
                 drift_seen = max(drift_seen, abs(w["dt"]))
             if abs(w["dt"]) > tol or abs(20 * math.log10(max(w["amp"], 1e-300))) > 0.4:
-                if _known_f1(r, known):
-                    ctx.known("F1", known["F1"]["what"]); continue
                 viol(ctx, "C04 fails on the real code: after %d output frames (of %d input frames) a %.4f cycles/frame tone is reproduced %.3g input periods "
                               "off the time axis t_k = k*irate/orate (tolerance %.3g; amplitude %.6f) (%s, %s clock, %s)" % (
                                   w["k"], job["N"], r["f"], w["dt"], tol, w["amp"], P.label(job["cfg"]), "hi-prec" if r["hiprec"] else "standard",
